@@ -1,0 +1,27 @@
+//! `cfg(libp2p_verif)` visibility hook for verification property C09 (smart-dial ranking).
+//! Only *calls* the private `rank_dials`; compiled out unless `--cfg libp2p_verif` is given.
+
+use std::time::Duration;
+
+use futures::FutureExt;
+
+use crate::{
+    Multiaddr,
+    connection::pool::{concurrent_dial::PendingDial, dial_ranker::rank_dials},
+};
+
+/// Run `rank_dials` over dials to the given addresses (futures never polled) and return the
+/// ranked `(delay, address)` list.
+pub fn rank(addrs: Vec<Multiaddr>) -> Vec<(Duration, Multiaddr)> {
+    let dials = addrs
+        .into_iter()
+        .map(|addr| PendingDial {
+            addr,
+            fut: futures::future::pending().boxed(),
+        })
+        .collect();
+    rank_dials(dials)
+        .into_iter()
+        .map(|(d, p)| (d, p.addr))
+        .collect()
+}
